@@ -99,3 +99,144 @@ def run_equiv(cases, spec="SemEquiv.tla", cfg="SemEquiv.cfg", batch=400,
     finally:
         shutil.rmtree(tmp, ignore_errors=True)
     return res
+
+
+# ------------------------------------------------ generic "apply and compare"
+class TransFamily:
+    '''A family of (routine source, applications) whose accepted applications
+    are compared with the original under SemEquiv.  Subclass-free: fill the
+    fields and call build()/judge().'''
+
+    def __init__(self, prop, routine="s", dom=(), fills=(1, 4), live=(),
+                 apps=None, prepare=None):
+        self.prop = prop
+        self.routine = routine
+        self.dom = list(dom)
+        self.fills = list(fills)
+        self.live = list(live)
+        self.apps = apps            # pid -> [(label, fn(routine_node))]
+        self.prepare = prepare      # optional fn(routine_node) before export
+
+
+_FAM = None
+
+
+def _build_one(item):
+    from psyclone.psyir.transformations import TransformationError
+    fam = _FAM
+    pid, src = item
+    out = []
+    for label, fn in fam.apps(pid):
+        cid = f"{pid}#{label}"
+        try:
+            psy = parse(src)
+            r = routine_named(psy, fam.routine)
+            if fam.prepare:
+                fam.prepare(r)
+            ref = Exporter().routine(r)
+        except Unsupported as err:
+            out.append({"id": cid, "status": "unsupported", "why": "ref: " + str(err)})
+            continue
+        try:
+            fn(r)
+        except TransformationError:
+            out.append({"id": cid, "status": "refused"})
+            continue
+        except Exception as err:   # noqa  - an internal error is not a refusal
+            out.append({"id": cid, "status": "crash",
+                        "why": f"{type(err).__name__}: {err}"[:300]})
+            continue
+        try:
+            new = Exporter().routine(r)
+            case = equiv_case(cid, ref, [new], fam.dom, fam.fills, fam.live)
+            text = write(r)
+        except Unsupported as err:
+            out.append({"id": cid, "status": "unsupported", "why": str(err)})
+            continue
+        except Exception as err:   # noqa  - writer failure after an accepted trans
+            out.append({"id": cid, "status": "crash",
+                        "why": f"writer: {type(err).__name__}: {err}"[:300]})
+            continue
+        out.append({"id": cid, "status": "accepted", "case": case, "src": src,
+                    "after": text, "trans": label.split(":")[0].split("@")[0],
+                    "label": label})
+    return out
+
+
+def build_family(fam, items):
+    '''Parse every (pid, source), apply every application; returns the list
+    of result records (status accepted|refused|unsupported|crash).'''
+    global _FAM
+    _FAM = fam
+    try:
+        return [r for part in core.pool_map(_build_one, items) for r in part]
+    finally:
+        _FAM = None
+
+
+def judge_family(out, results, matchers, detail_fn=None, max_unsupported=0.2):
+    '''Run the accepted cases through SemEquiv and turn failing cases into
+    known-finding hits / violations.  Returns the coverage dict.'''
+    stat = {}
+    for r in results:
+        stat[r["status"]] = stat.get(r["status"], 0) + 1
+    accepted = [r for r in results if r["status"] == "accepted"]
+    if stat.get("unsupported", 0) > max_unsupported * max(1, len(results)):
+        why = {}
+        for r in results:
+            if r["status"] == "unsupported":
+                why[r["why"]] = why.get(r["why"], 0) + 1
+        raise core.MachineryError(f"too many unsupported cases: {stat} {why}")
+    res = run_equiv([r["case"] for r in accepted])
+    per_trans, nontrivial = {}, 0
+    for r in accepted:
+        cid = r["id"]
+        live_inputs = n_inputs(r["case"]) - res.discards.get(cid, 0)
+        pt = per_trans.setdefault(r["trans"], {"accepted": 0, "nontrivial": 0, "failing": 0})
+        pt["accepted"] += 1
+        if live_inputs > 0:
+            nontrivial += 1
+            pt["nontrivial"] += 1
+        fails = res.fails.get(cid, [])
+        if not fails:
+            continue
+        pt["failing"] += 1
+        wit = [f[1] for f in fails]
+        rec = {"id": cid, "trans": r["trans"], "label": r["label"], "case": r["case"],
+               "src": r["src"], "after": r["after"]}
+        detail = {"witnesses": wit, "n_failing_inputs": len(wit),
+                  "names": {n for w in wit for n in w.get("names", [])}}
+        if detail_fn:
+            detail.update(detail_fn(rec, wit))
+        slim = {"id": cid, "trans": r["trans"], "label": r["label"],
+                "source": r["src"], "after": r["after"]}
+        sdetail = {k: (sorted(v) if isinstance(v, set) else v) for k, v in detail.items()
+                   if k != "target_loops"}
+        sdetail["witnesses"] = wit[:4]
+        for cl in sorted({f[0] for f in fails}):
+            hit = None
+            for f in out.findings:
+                m = matchers.get(f["match"])
+                if m and m(rec, cl, detail, f):
+                    hit = f["id"]
+                    break
+            if hit:
+                out.known_hit[hit] = out.known_hit.get(hit, 0) + 1
+                out.known_examples.setdefault(hit, {"case": slim, "clause": cl,
+                                                    "detail": sdetail})
+            else:
+                out.violations.append({"case": slim, "clause": cl, "detail": sdetail})
+    crashes = [r for r in results if r["status"] == "crash"]
+    unsup = [r for r in results if r["status"] == "unsupported"]
+    return {"states": res.states, "transitions": res.transitions,
+            "traces_validated_against_impl": len(accepted),
+            "evaluations": len(results), "distinct_nontrivial": nontrivial,
+            "status_counts": stat, "per_transformation": per_trans,
+            "inputs_per_case": n_inputs(accepted[0]["case"]) if accepted else 0,
+            "discarded_ub_inputs": sum(res.discards.values()),
+            "internal_errors": [{"id": c["id"], "why": c["why"]} for c in crashes[:10]],
+            "unsupported_samples": [{"id": c["id"], "why": c["why"]} for c in unsup[:5]],
+            "known_examples": out.known_examples,
+            "samples": [{"id": r["id"], "source": r["src"], "after": r["after"]}
+                        for r in accepted[:: max(1, len(accepted) // 4)][:4]],
+            "exhaustive": False}
